@@ -57,6 +57,11 @@ type Emp {
 	age: Int
 	boss: Emp @primary @relation(name: "boss_minion")
 	minion: Emp @relation(name: "boss_minion")
+	badge: Badge @primary
+}
+type Badge {
+	code: String
+	holder: Emp
 }`
 
 var ints = []string{"0", "1", "-1", "255", "4294967296", "9007199254740993", "-9007199254740993", "9223372036854775807", "-9223372036854775808", "123456789012345678"}
@@ -65,6 +70,15 @@ var times = []string{`"2021-03-04T05:06:07Z"`, `"2021-03-04T05:06:07.123456789Z"
 var blobs = []string{`"00ff"`, `""`, `"deadbeef"`, `"0a0d"`}
 var jsons = []string{`{"a": 1, "b": [true, null, "x"]}`, `[1, 2.5, {"k": "v"}]`, `"str"`, `12345678901234567`, `null`, `{"nested": {"deep": [[]]}}`}
 var strs = []string{`""`, `"a"`, `"Ünïcode ✓"`, `"quote\"and\\slash"`, `"line\nbreak"`, `"<html>&"`}
+
+// contentCode stands for an employee's own content (name, age, badge) in the model's symbolic identifiers
+func contentCode(emp, age int, badge bool) int {
+	c := (emp*1000 + age) * 2
+	if badge {
+		c++
+	}
+	return c
+}
 
 func pick(r *vc.Rng, xs []string) string { return xs[r.Intn(len(xs))] }
 
@@ -105,7 +119,8 @@ const dumpQ = `query {
 	Item { _docID name n f b t blob j tags nums onums d ds }
 	Author { _docID name age books { _docID } }
 	Book { _docID title author { _docID } }
-	Emp { _docID name age boss { _docID } minion { _docID } }
+	Emp { _docID name age boss { _docID } minion { _docID } badge { _docID } }
+	Badge { _docID code holder { _docID } }
 }`
 
 // dump returns, per collection, the documents keyed by docID with every id replaced through mapID.
@@ -223,16 +238,24 @@ func runCase(ctx context.Context, out *vc.Out, r *vc.Rng, caseID int, dir string
 	var emps []string
 	sym := map[string]string{} // real identifier -> symbolic identifier of the model (content at creation . symbolic id of the boss at creation)
 	empNo := map[string]int{}  // real identifier -> number of the employee
+	hasBadge := map[int]bool{}
 	for i := 0; i < nEmp; i++ {
-		js := fmt.Sprintf(`{"name": "emp%d", "age": %d}`, i, 20+i)
+		js := fmt.Sprintf(`{"name": "emp%d", "age": %d`, i, 20+i)
+		if r.Chance(1, 2) {
+			// the primary side of a second, one-to-one relation (an import that re-saves the employee must not trip over
+			// its own link)
+			js += fmt.Sprintf(`, "badge_id": "%s"`, create("Badge", fmt.Sprintf(`{"code": "b%d-%d"}`, caseID, i)))
+			hasBadge[i] = true
+		}
 		boss := ""
 		if len(emps) > 0 && r.Chance(1, 2) {
 			// boss = an earlier employee that has no minion yet (one-to-one)
 			boss = emps[len(emps)-1]
-			js = fmt.Sprintf(`{"name": "emp%d", "age": %d, "boss_id": "%s"}`, i, 20+i, boss)
+			js += fmt.Sprintf(`, "boss_id": "%s"`, boss)
 		}
+		js += "}"
 		id := create("Emp", js)
-		sym[id] = strconv.Itoa(i*1000 + 20 + i)
+		sym[id] = strconv.Itoa(contentCode(i, 20+i, hasBadge[i]))
 		if boss != "" {
 			bossOf[id] = boss
 			sym[id] += "." + sym[boss]
@@ -282,7 +305,7 @@ func runCase(ctx context.Context, out *vc.Out, r *vc.Rng, caseID int, dir string
 		st := empState{id: id}
 		age, err := d.Get("age")
 		must(err)
-		st.content = empNo[id]*1000 + int(age.(int64))
+		st.content = contentCode(empNo[id], int(age.(int64)), hasBadge[empNo[id]])
 		if b, err := d.Get("boss_id"); err == nil && b != nil {
 			st.boss = b.(string)
 		}
@@ -314,7 +337,7 @@ func runCase(ctx context.Context, out *vc.Out, r *vc.Rng, caseID int, dir string
 	cfg := &client.BackupConfig{Filepath: file, Pretty: pretty}
 	subset := r.Chance(1, 4)
 	if subset {
-		cfg.Collections = []string{"Item", "Emp"}
+		cfg.Collections = []string{"Item", "Emp", "Badge"}
 	}
 	line := out.Lines
 	out.Emit(fmt.Sprintf("case %d items=%d authors=%d books=%d emps=%d pretty=%v subset=%v", caseID, nItems, nAuthors, nBooks, nEmp, pretty, subset), "ok")
@@ -487,9 +510,9 @@ func runCase(ctx context.Context, out *vc.Out, r *vc.Rng, caseID int, dir string
 		out.Oracle(line, fmt.Sprintf("[dump-error] case %d: %s %s", caseID, e1, e2))
 		return
 	}
-	cols := []string{"Item", "Author", "Book", "Emp"}
+	cols := []string{"Item", "Author", "Book", "Emp", "Badge"}
 	if subset {
-		cols = []string{"Item", "Emp"}
+		cols = []string{"Item", "Emp", "Badge"}
 	}
 	for _, col := range cols {
 		for id, w := range want[col] {
